@@ -22,7 +22,7 @@ subsequent argument. An alias is gte.`,
 func gte(root map[string]any, at any, args ...any) any {
 	answer := true
 	if 0 < len(args) {
-		switch t0 := args[0].(type) {
+		switch t0 := evalArg(root, at, args[0]).(type) {
 		case float32, float64,
 			int, int8, int16, int32, int64, uint, uint8, uint16, uint32, uint64:
 			f0, _ := asFloat(t0)
